@@ -3,13 +3,13 @@
 HOOK_COMMITS = ["c4c2ecd", "2f67f21", "e5d0013"]
 
 ENGINES = [
-    {"name": "tlc", "path": "/verif/lib/vlib.py", "serves_properties": ["C01", "C02", "C03", "C05", "C06", "C12", "C18"],
+    {"name": "tlc", "path": "/verif/lib/vlib.py", "serves_properties": ["C01", "C02", "C03", "C05", "C06", "C12", "C17", "C18"],
      "kind_free_text": "TLC runner (exhaustive, simulation), TLA+ value parser, evidence writer"},
     {"name": "psrun", "path": "/verif/lib/psprops.py", "serves_properties": ["C01", "C02", "C03", "C06"],
      "kind_free_text": "abstract programs (catalogue + seeded generator) -> MroSem table by TLC -> real pipestances under forced schedules -> PsTrace monitors by TLC"},
     {"name": "procdrv", "path": "/verif/lib/procdrv.py", "serves_properties": ["C05"],
      "kind_free_text": "real mrp/mrjob (tag verif) + table-driven vstage; SIGKILL/SIGTERM/SIGINT at the k-th effect; restart"},
-    {"name": "vh", "path": "/verif/harness", "serves_properties": ["C01", "C02", "C03", "C05", "C06", "C12", "C18"],
+    {"name": "vh", "path": "/verif/harness", "serves_properties": ["C01", "C02", "C03", "C05", "C06", "C12", "C17", "C18"],
      "kind_free_text": "Go conformance harness built with -tags verif against /repo's working tree"},
 ]
 
@@ -18,6 +18,11 @@ _RT_NOTE = ("programs: hand catalogue + fixed generated corpus (one mapped level
             "known findings (known_findings.json) are printed as KNOWN-FINDING")
 
 CHECKS = [
+    {"id": "C17", "engine": "tlc+vh",
+     "technique": "TLA+ transcription of Assignable/Valid/Filter with the statement's theorems checked by TLC over bounded type and value universes; every row replayed through the real Type methods",
+     "text": "MroTypes.tla states assignability, clean validation and filtering per type as the code does; TLC checks null-validity, reflexivity, array/typed-map congruence, idempotence of filtering and that filtering valid values reports nothing, over 35 types and ~2,600 (type, value) rows incl. near misses, and computes the conversions that are unsound in the model; each row is replayed in three byte renderings through IsValidJson, FilterJson (value, error, fatal flag, second application) and IsAssignableFrom; every assignable pair is also checked for 'valid for s => filtered to t validates for t'.",
+     "ref": "DESIGN.md 5 C17",
+     "note": "bounded universe (array dim <= 2, nesting <= 2, width <= 3); number printing beyond the listed literals is not covered; types come from one compiled AST"},
     {"id": "C18", "engine": "tlc+vh",
      "technique": "TLA+ model of the quoting function and of the POSIX double-quote reader; theorem checked by TLC on all short strings; every row replayed through the real function and the real /bin/sh",
      "text": "ShQuote.tla states Quote as the code does it and ShRead as POSIX 2.2.3; TLC proves ShRead(Quote(s)) = s for all strings over a 23-class alphabet up to length 3 (specials up to 5) and emits the rows; each row is quoted by the real appendShellSafeQuote, evaluated by the real /bin/sh and compared with the original string; whole job scripts from RemoteJobManager.jobScript are executed with a probe command (argument, environment value, placeholder-looking value, path).",
